@@ -547,6 +547,39 @@ def helper_scenario(spec, ks, vals, order):
     return fails
 
 
+def accessor_spellings(R, rng, tier):
+    """x.<spelling> inside a registered function = x.<spelling> evaluated directly, for EVERY spelling of every blade of small
+    algebras whose canonical blades are not all spelled in the listing order of their generators."""
+    from itertools import permutations
+    specs = [{'fromname': '2DPGA'}, {'sig': [1, 1, 1], 'basis': ['e', 'e1', 'e2', 'e3', 'e12', 'e31', 'e23', 'e123']},
+             {'sig': [1, 1, 1], 'basis': ['e', 'e2', 'e3', 'e1', 'e23', 'e21', 'e31', 'e231']}, {'sig': [0, 1, 1], 'start': 3}]
+    if tier != 'quick':
+        specs.append({'fromname': '3DPGA'})
+    for spec in specs:
+        alg = algs.make_impl(spec)
+        vals = [rng.randint(2, 9) * rng.choice((1, -1)) for _ in range(len(alg))]
+        x = alg.multivector(vals)
+        for canon in alg.canon2bin:
+            perms = list(permutations(canon[1:]))
+            if len(perms) > 6:
+                perms = rng.sample(perms, 6)
+            for perm in perms:
+                name = 'e' + ''.join(perm)
+                def coefficient(v, name=name):
+                    return getattr(v, name)
+                R.count('route=accessor-spelling'); R.case(('accessor-spelling', repr(spec), name), name != canon)
+                direct = coefficient(x)
+                try:
+                    compiled = alg.register(coefficient)(x).e
+                except Exception as e:  # noqa
+                    compiled = f'{type(e).__name__}: {e}'[:100]
+                if compiled != direct:
+                    R.violation({'clause': 'accessor-spelling', 'route': 'register'},
+                                {'algebra': spec, 'spelling': name, 'values': vals, 'accessor': True},
+                                f'x.{name} is {direct} evaluated directly (canonical blade {canon}: {getattr(x, canon)}) but {compiled} inside a registered function, '
+                                f'in Algebra({algs.describe(spec)}) with x = multivector({vals})')
+
+
 def same_name_helpers(R, rng, tier):
     for it in range(6 if tier == 'quick' else 80):
         spec = random_spec(rng) if it % 2 else {'sig': [1, 1, 1, 0][:rng.choice((2, 3, 4))], 'start': None}
@@ -581,9 +614,11 @@ def run(R, tier):
 
     probes(R)
     same_name_helpers(R, rng, tier)
+    accessor_spellings(R, rng, tier)
     quick = tier == 'quick'
     # 1. every one-level form, 2. two-level trees over the reduced operand set
-    specs = SPECS_QUICK[:4] if quick else SPECS_QUICK + [random_spec(rng) for _ in range(12)]
+    # (a named algebra: blades such as e20 / e01 are not spelled in the listing order of their generators)
+    specs = SPECS_QUICK[:4] + [{'fromname': '2DPGA'}] if quick else SPECS_QUICK + [{'fromname': '2DPGA'}, {'fromname': '3DPGA'}] + [random_spec(rng) for _ in range(12)]
     for spec in specs:
         alg, env = get(spec)
         blades = blade_spellings(rng, alg)
@@ -635,6 +670,13 @@ def replay(R, rec):
     route = rec.get('class', {}).get('route', 'register')
     alg = algs.make_impl(r['algebra'])
     env = make_env(alg)
+    if r.get('accessor'):
+        x = alg.multivector(list(r['values']))
+        f = lambda v, name=r['spelling']: getattr(v, name)
+        try:
+            return alg.register(f)(x).e == f(x)
+        except Exception:  # noqa
+            return False
     if r.get('helpers'):
         return not helper_scenario(r['algebra'], list(r['keys']), list(r['values']), [tuple(o) for o in r['order']])
     if 'lambda' in r:
